@@ -346,6 +346,9 @@ func runFault(c FaultCase) (v *Violation, st faultStats) {
 	base := DumpDB(w.DB)
 	pre := snapOf(w)
 	call := c.Call
+	if call.NoLoad && !call.Skip && w.IndexLabel != w.Latest {
+		call.Skip = true // (see genFaultCall: an index-enabled handle that never loads would serve a stale index)
+	}
 	var importNodes []*iavl.ExportNode
 	if call.Kind == "import" {
 		it, err := w.Tree.GetImmutable(call.N)
@@ -617,6 +620,12 @@ func genFaultCall(t *rapid.T, w *World) FaultCall {
 		// (not versionexists_available: VersionExists / AvailableVersions have no error result, so a fault met inside them is
 		// outside the property; what they say AFTER a load that succeeded under a fault is part of the loadversion call)
 		c.NoLoad = rapid.IntRange(0, 2).Draw(t, "noLoad") == 0
+		if c.NoLoad && !c.Skip && w.IndexLabel != w.Latest {
+			// the persisted index is stale (the last commits were made with the index disabled) and it is Load that notices
+			// and rebuilds it: a handle with the index ENABLED that reads without ever loading serves the stale index, so
+			// the fault-free result itself would be wrong (not a storage-failure matter; see DESIGN section 9)
+			c.Skip = true
+		}
 	}
 	if isWriteCall(c.Kind) && rapid.IntRange(0, 5).Draw(t, "smallFlush") == 0 {
 		// automatic flushes inside the operation: only the error-vs-success oracle applies (the store left behind by a
